@@ -21,13 +21,17 @@ theorem ofNatVar_good (x : String) : Good N σ (ofNatVarM x) (Sound N Q O σ F (
     show σ rx = vtoReal N (σ x)
     exact ht x rx hl
   · rename_i hl
-    simp only [Prod.mk.injEq] at hrun
-    obtain ⟨rfl, rfl⟩ := hrun
-    refine ⟨fun y ry h => lookup_append_some _ _ _ _ h, fun a ha ht ρ => ?_⟩
-    simp only [Except.ok.injEq] at ha
-    subst ha
-    show σ _ = vtoReal N (σ x)
-    exact ht x _ (lookup_append_none _ _ _ hl)
+    split at hrun
+    · simp only [Prod.mk.injEq] at hrun
+      obtain ⟨rfl, rfl⟩ := hrun
+      refine ⟨fun y ry h => lookup_append_some _ _ _ _ h, fun a ha ht ρ => ?_⟩
+      simp only [Except.ok.injEq] at ha
+      subst ha
+      show σ _ = vtoReal N (σ x)
+      exact ht x _ (lookup_append_none _ _ _ hl)
+    · simp only [Prod.mk.injEq] at hrun
+      obtain ⟨rfl, rfl⟩ := hrun
+      exact ⟨Ext.refl _, fun a ha => by simp at ha⟩
 
 theorem conv_good (hQ : Compat N Q) (t : H) : ∀ env, Good N σ (conv env t) (Sound N Q O σ F t) := by
   induction t with
